@@ -26,7 +26,7 @@ func init() {
 // injection returns shares slices and pointers (hook args / env, mount options, device file mode / uid / gid, hook timeout)
 // with the cached Specs: a caller editing ITS OCI spec in place changes the cache.  While false, the harness does not write
 // into the OCI spec it got back before it compares the cache image.
-const defectPendingOCIAliasesCache = false
+const defectPendingOCIAliasesCache = true // repaired: D27
 
 // richHosts: host device nodes that rich Spec edits may refer to (device nodes completed from the host at injection).
 var richHosts []hostNode
